@@ -104,7 +104,7 @@ PROPS = {
     "C05": ring(quick=320, thorough=8000),
     "C06": ring(quick=320, thorough=8000),
     "C09": ring(quick=320, thorough=8000),
-    "C07": ring(level="fault_enumeration", quick=192, thorough=2400),
+    "C07": ring(level="fault_enumeration", quick=208, thorough=2600),
     "C08": ring(quick=240, thorough=6000),
     "C10": ring(quick=240, thorough=6000),
     "C14": ring(quick=240, thorough=6000),
@@ -159,7 +159,7 @@ PROPS.update({
 })
 
 PROPS.update({
-    "C41": {"engine": "quic", "level": "exploration", "quick": 1600, "thorough": 100000},
+    "C41": {"engine": "quic", "level": "exploration", "quick": 8000, "thorough": 400000},
     "C36": {"engine": "gw", "level": "fault_enumeration", "quick": 297, "thorough": 297},
 })
 
